@@ -3,7 +3,7 @@ correspondence of Alg/Enum.v, Alg/Golden.v (binary64, bit for bit), Alg/CoordDes
 plus oracles on the implementation (brute force over the grid, documented grids, box / cost / slack checks).
 
 Case kinds: 'enum' (meio_by_enumeration), 'tad' (truncate_and_discretize), 'groups' (_base_stock_group_assignments),
-'golden' (golden_section_search), 'cd' (meio_by_coordinate_descent), 'simobj' (simulation / SSM objectives, oracle only).
+'simseed' (simulation-based enumeration: seed handling, incl. sim_rand_seed=0), 'golden' (golden_section_search), 'cd' (meio_by_coordinate_descent), 'simobj' (simulation / SSM objectives, oracle only).
 All numbers in a case are JSON-native: rationals as 'p/q' strings, binary64 values as float.hex() strings."""
 import copy, io, itertools, math, contextlib
 from fractions import Fraction
@@ -15,7 +15,8 @@ RULE = ('enum: serial networks with 1..4 nodes (random index sets and orders), g
         'step 0 / negative / larger than the range, hi<lo, inexact decimal steps; groups: disjoint and overlapping sets; golden: intervals '
         '(also reversed or narrower than tol), tol 1e-2..1e-8, unimodal functions ((x-c)^2 forms, expanded quadratics, |x-c|, asymmetric '
         'piecewise-linear, K/x+hx, linear) with arbitrary binary64 coefficients; cd: boxes, convex quadratics / piecewise-linear, groups, '
-        'start inside or outside the box. non-trivial = enum: grid has >1 vector and the objective is not constant on it; tad: >1 grid point; '
+        'start inside or outside the box; simseed: simulation-based meio_by_enumeration on 1..3-node serial systems, tiny grids, sim_rand_seed 0 and non-zero, each call '
+        'twice from different global RNG states, against an independent seeded re-simulation of every grid vector. non-trivial = enum: grid has >1 vector and the objective is not constant on it; tad: >1 grid point; '
         'groups: at least one set of size>1; golden: the loop runs (n>=2); cd: more than one sweep or more than one group. '
         'distinct = distinct case contents.')
 
@@ -993,6 +994,78 @@ def sim_one(chk, c):
             if cost > f0 + 1e-2 * max(1.0, abs(f0)):
                 chk.fail('meio_by_coordinate_descent|%s-worse-than-start' % sub, 'cost %r > objective at start %r (1%% slack)' % (cost, f0), c)
 
+
+# ------------------------------------------------------------------------------------------------------------
+# SIMULATION OBJECTIVE, SEED HANDLING: the seeded simulation is a deterministic objective; sim_rand_seed (incl. 0) must make
+# meio_by_enumeration reproducible and its reported cost the seeded objective at the returned vector
+
+def seeded_sim_cost(c, S):
+    """independent evaluation of the documented simulation objective: seed the generator with sim_rand_seed, then one
+    simulation per trial seeded with the next randint(1, 10000); mean of (total cost / periods)"""
+    import numpy as np
+    from stockpyl.sim import simulation
+    net = make_network(c['nodes'], mean=c['mean'], sd=c['sd'])
+    for nd in net.nodes: nd.inventory_policy.base_stock_level = S[nd.index]
+    np.random.seed(c['seed'])
+    avg = []
+    for _ in range(c['trials']):
+        avg.append(simulation(net, c['periods'], rand_seed=np.random.randint(1, 10000), progress_bar=False) / c['periods'])
+    return float(np.mean(avg))
+
+
+def simseed_one(chk, c):
+    import numpy as np
+    from stockpyl.meio_general import meio_by_enumeration
+    nodes = c['nodes']; grid = {int(k): v for k, v in c['grid'].items()}
+    og = doc_opt_group(nodes, c['groups']); reps = sorted(set(og.values()))
+    results = []
+    for state in c['global_states']:
+        np.random.seed(state); np.random.random(state % 7)           # a different position of the global stream before each call
+        net = make_network(nodes, mean=c['mean'], sd=c['sd'])
+        with contextlib.redirect_stdout(io.StringIO()):
+            S, cost = meio_by_enumeration(net, base_stock_levels={r_: grid[r_] for r_ in reps}, groups=py_groups(c['groups']), sim_num_trials=c['trials'],
+                                          sim_num_periods=c['periods'], sim_rand_seed=c['seed'], progress_bar=False)
+        results.append(({n: S[n] for n in nodes}, cost))
+    feat = 'seed=0' if c['seed'] == 0 else 'seed!=0'
+    if any(r_ != results[0] for r_ in results[1:]):
+        chk.fail('meio_by_enumeration|sim-not-reproducible-%s' % feat, 'identical calls with sim_rand_seed=%r from different global RNG states returned %s'
+                 % (c['seed'], jsonable(results)), c)
+    vectors = [{n: dict(zip(reps, cb))[og[n]] for n in nodes} for cb in itertools.product(*[grid[r_] for r_ in reps])]
+    objective = [(seeded_sim_cost(c, v), v) for v in vectors]
+    best = min(o for o, _ in objective)
+    for S, cost in results[:1] if all(r_ == results[0] for r_ in results) else results:
+        if S not in vectors:
+            chk.fail('meio_by_enumeration|sim-off-grid', 'returned %s is not a grid vector' % S, c); continue
+        fS = [o for o, v in objective if v == S][0]
+        if fS != cost:
+            chk.fail('meio_by_enumeration|sim-cost-not-seeded-objective-at-returned-%s' % feat,
+                     'reported cost %r, seeded simulation objective (sim_rand_seed=%r) at the returned vector %s is %r' % (cost, c['seed'], S, fS), c)
+        if best < fS:
+            chk.fail('meio_by_enumeration|sim-better-grid-vector-exists-%s' % feat,
+                     'grid vector %s has seeded objective %r < %r at the returned vector %s' % ([v for o, v in objective if o == best][0], best, fS, S), c)
+    return len({o for o, _ in objective}) > 1
+
+
+def sim_seed_cases(chk, thorough):
+    rng = chk.rng
+    specs = []
+    for seed in [0, rng.randint(1, 10 ** 6)] + ([0, 1, rng.randint(1, 10 ** 6)] if thorough else []):
+        two = rng.random() < 0.5 or seed == 0
+        nodes = [2, 1] if two else rng.choice([[1], [3, 2, 1]])
+        mean = rng.choice([4, 5, 6])
+        grid = {str(n): sorted(rng.sample(range(mean - 2, mean + 5), 2)) for n in nodes}
+        specs.append(dict(kind='simseed', nodes=nodes, groups=None if rng.random() < 0.7 or len(nodes) == 1 else [sorted(nodes[:2])], grid=grid, mean=mean, sd=rng.choice([1, 2]),
+                          seed=seed, trials=rng.choice([2, 3]), periods=rng.choice([20, 30]) if not thorough else rng.choice([30, 100]),
+                          global_states=[rng.randint(1, 10 ** 6), rng.randint(1, 10 ** 6)]))
+    for c in specs:
+        chk.count('simseed:seed=%s' % ('0' if c['seed'] == 0 else 'nonzero'))
+        try:
+            nontriv = simseed_one(chk, c)
+        except Exception as e:
+            nontriv = False
+            chk.fail('meio_by_enumeration|sim-raises-%s' % exc_kind(e), '%s: %s' % (type(e).__name__, str(e)[:300]), c)
+        chk.case(c, nontriv)
+
 # ------------------------------------------------------------------------------------------------------------
 
 def run(chk):
@@ -1017,6 +1090,7 @@ def run(chk):
     explore_golden(chk, 320 if quick else 10000)
     explore_cd(chk, 90 if quick else 1800)
     sim_cases(chk, not quick)
+    sim_seed_cases(chk, not quick)
     if (chk.broken or chk.mismatches) and not chk.fails:
         # directed search for a failing input of the property: bigger budget, oracles only
         k = 6 if quick else 2
@@ -1036,6 +1110,8 @@ def replay(chk, rp):
         r = run_cd_impl(c); print('implementation:', jsonable(r[:3])); bad, _ = cd_oracle(c, r)
     elif kind == 'simobj':
         sim_one(chk, c); bad = []
+    elif kind == 'simseed':
+        simseed_one(chk, c); bad = []
     elif kind == 'groups':
         from stockpyl.meio_general import _base_stock_group_assignments
         og, gl = _base_stock_group_assignments(list(c['nodes']), py_groups(c['groups'])); print('implementation:', og, gl)
